@@ -234,6 +234,10 @@ func main() {
 		mk("rlimit-nice", "apparmor", "DENIED", "operation", "setrlimit", "class", "rlimits", "profile", "prog", "comm", "prog", "rlimit", "nice", "=value", "30"),
 		mk("rlimit-nice", "apparmor", "DENIED", "operation", "setrlimit", "class", "rlimits", "profile", "prog", "comm", "prog", "rlimit", "nice", "=value", "10"),
 	}
+	// (fourth hunt) a file record that names its subject in label= only (stacked / container confinement)
+	n++
+	w.Encode(process(fmt.Sprintf("file-label-only-%d", n), mk("file", "apparmor", "DENIED", "operation", "open", "class", "file", "label", "prog-lbl", "name", "/srv/data/lbl", "comm", "prog",
+		"requested_mask", "r", "denied_mask", "r", "=fsuid", "1000", "=ouid", "1000")))
 	// (fourth hunt) a path of the noise list asked for with an access abstractions/base does not grant: not noise
 	for _, nr := range [][3]string{{"open", "/dev/urandom", "w"}, {"open", "/dev/random", "w"}, {"rename_dest", "/etc/ld.so.cache", "wc"}, {"open", "/usr/lib/locale/locale-archive", "wc"},
 		{"open", "/usr/share/zoneinfo/UTC", "w"}, {"open", "/usr/lib/libfoo.so.1", "w"}, {"open", "/dev/log", "r"}} {
